@@ -140,6 +140,10 @@ func NewBuilderCase(g *Gen, id int) *Case {
 				p.Op = Pick(r, []string{"upper", "append"})
 				p.S = "!"
 			}
+			if r.P(30) {
+				// a failing transform: its issue is not the issue of any test of the chain
+				p.Op, p.S = "err", "boom"
+			}
 			calls = append(calls, "CPT "+strings.TrimSuffix(strings.TrimPrefix(coqPTs(&Node{PTs: []PTSpec{p}}), "["), "]"))
 			apply = append(apply, func(s *z.StringSchema[string]) { s.PostTransform(mkPT(rec, p)) })
 			applyI = append(applyI, func(s *z.NumberSchema[int]) { s.PostTransform(mkPT(rec, p)) })
